@@ -166,8 +166,11 @@ static inline int pntz(size_t p[2]) {
     return 0;
 }
 
-static void cycle(size_t width, unsigned char *ar[], int n) {
-    unsigned char tmp[256];
+#define CYCLE_TMP_SIZE 256
+
+/* tmp is a scratch buffer of CYCLE_TMP_SIZE bytes owned by the caller */
+static void cycle(size_t width, unsigned char *ar[], int n,
+                  unsigned char *tmp) {
     size_t l;
     int i;
 
@@ -175,7 +178,7 @@ static void cycle(size_t width, unsigned char *ar[], int n) {
         return;
     ar[n] = tmp;
     while (width) {
-        l = sizeof(tmp) < width ? sizeof(tmp) : width;
+        l = CYCLE_TMP_SIZE < width ? CYCLE_TMP_SIZE : width;
         memcpy(ar[n], ar[0], l);
         for (i = 0; i < n; i++) {
             memcpy(ar[i], ar[i + 1], l);
@@ -213,6 +216,7 @@ static void sift(unsigned char *head, size_t width, cmpfun cmp, int pshift,
                  size_t lp[], void *ctx) {
     unsigned char *rt, *lf;
     unsigned char *ar[14 * sizeof(size_t) + 1];
+    unsigned char tmp[CYCLE_TMP_SIZE];
     int i = 1;
 
     ar[0] = head;
@@ -233,7 +237,7 @@ static void sift(unsigned char *head, size_t width, cmpfun cmp, int pshift,
             pshift -= 2;
         }
     }
-    cycle(width, ar, i);
+    cycle(width, ar, i, tmp);
 }
 
 static void trinkle(unsigned char *head, size_t width, cmpfun cmp, size_t pp[2],
@@ -241,6 +245,7 @@ static void trinkle(unsigned char *head, size_t width, cmpfun cmp, size_t pp[2],
     unsigned char *stepson, *rt, *lf;
     size_t p[2];
     unsigned char *ar[14 * sizeof(size_t) + 1];
+    unsigned char tmp[CYCLE_TMP_SIZE];
     int i = 1;
     int trail;
 
@@ -270,7 +275,7 @@ static void trinkle(unsigned char *head, size_t width, cmpfun cmp, size_t pp[2],
         trusty = 0;
     }
     if (!trusty) {
-        cycle(width, ar, i);
+        cycle(width, ar, i, tmp);
         sift(head, width, cmp, pshift, lp, ctx);
     }
 }
